@@ -53,6 +53,20 @@ func runStress(goroutines, rounds int, corpusDir, out string) {
 	for _, b := range loadCorpus(corpusDir) {
 		inputs = append(inputs, string(b))
 	}
+	// long inputs (pooled or shared scratch buffers usually start above some size): every built-in text
+	// repeated to 65..4100 bytes, all of them joined, one very long cluster, long ASCII runs.
+	// Plain string operations only: no library call may happen before the concurrent phase.
+	sizes := []int{65, 129, 300, 1025, 4100}
+	for i, t := range stressBuiltin {
+		if len(t) == 0 {
+			continue
+		}
+		n := sizes[i%len(sizes)]
+		inputs = append(inputs, strings.Repeat(t, n/len(t)+1))
+	}
+	inputs = append(inputs, strings.Join(stressBuiltin, " "), strings.Repeat(strings.Join(stressBuiltin, "\n"), 4),
+		"e"+strings.Repeat("\u0301", 200)+" x", strings.Repeat("abcdefghij", 13)+".", strings.Repeat("The quick brown fox. ", 60),
+		strings.Repeat("\U0001F1E9\U0001F1EA", 40), strings.Repeat("한글 テスト 中文。", 30))
 	type rec struct {
 		g, i int
 		res  string
